@@ -934,3 +934,45 @@ def gen_private_dependency_spec(rng, wdomain='log'):
     if wdomain == 'real':
         weights = {t: map_nested(w, math.exp) for t, w in weights.items()}
     return dict(domains={'L0': dom}, terminals=terminals, nonterminals=nts, start='S', rules=rules, weights=weights, wdomain=wdomain)
+
+
+def gen_matrix_closure_spec(rng):
+    """X(i,j) -> B(i,j) | X(i,k) A(k,j)   (or A(i,k) X(k,j)): the closure B (I - A)^-1 with a SPARSELY PATTERNED base
+    factor B (identity / shifted diagonal / single column) and a dense A of spectral radius <= 0.8, so that successive
+    iterates of the nonterminal have sparsity patterns of different physical sizes.  Real weight domain; spec['patterns']
+    is set (realise with pattern_weight_builder)."""
+    from ..oracle import axis_ref as A_
+    n = rng.randint(2, 4)
+    rows = []
+    for _ in range(n):
+        r = [rng.choice([0.0, rng.uniform(0.1, 1.0)]) for _ in range(n)]
+        if not any(r):
+            r[rng.randrange(n)] = 1.0
+        tot = sum(r) / rng.choice([0.5, 0.7, 0.8])
+        rows.append([round(x / tot, 4) for x in r])
+    kind = rng.choice(['eye', 'eye', 'shifted', 'column'])
+    if kind == 'eye' or n < 3:
+        pb = dict(psizes=[n], vaxes=[0, 0], default=0.0, physical=[round(rng.uniform(0.5, 1.5), 3) if rng.random() < 0.5 else 1.0 for _ in range(n)], expand=[])
+    elif kind == 'shifted':
+        pb = dict(psizes=[n - 1], vaxes=[{'before': 1, 'term': 0, 'after': 0}, {'before': 0, 'term': 0, 'after': 1}], default=0.0,
+                  physical=[1.0] * (n - 1), expand=[])
+    else:
+        c = rng.randrange(n)
+        pb = dict(psizes=[n], vaxes=[0, {'before': c, 'term': [], 'after': n - 1 - c}], default=0.0, physical=[1.0] * n, expand=[])
+    pa = dict(psizes=[n, n], vaxes=[0, 1], default=0.0, physical=rows, expand=[])
+    left = rng.random() < 0.5
+    rec = dict(lhs='X', nodes=['L0', 'L0', 'L0'], ext=[0, 2],
+               edges=[['A', [0, 1]], ['X', [1, 2]]] if left else [['X', [0, 1]], ['A', [1, 2]]])
+    base = dict(lhs='X', nodes=['L0', 'L0'], ext=[0, 1], edges=[['B', [0, 1]]])
+    rules = [base, rec] if rng.random() < 0.5 else [rec, base]
+    nts = {'X': ['L0', 'L0']}
+    start = 'X'
+    if rng.random() < 0.5:
+        nts = {'S': [], 'X': ['L0', 'L0']}
+        start = 'S'
+        rules.append(dict(lhs='S', nodes=['L0', 'L0'], ext=[], edges=[['X', [0, 1]]]))
+    spec = dict(domains={'L0': n}, terminals={'B': ['L0', 'L0'], 'A': ['L0', 'L0']}, nonterminals=nts, start=start, rules=rules,
+                weights={}, wdomain='real', patterns={'B': pb, 'A': pa})
+    for t, ps in spec['patterns'].items():
+        spec['weights'][t] = A_.densify(ps)[0]
+    return spec
